@@ -57,8 +57,85 @@ let fmt_meta (b : Buffer.t) (fm : file_meta) : unit =
                                            tok_of_z m.cm_codec ^ ":" ^ tok_of_z m.cm_type)
           | None -> Buffer.add_string b " cc:NOMETA") rg.rg_columns) fm.fm_row_groups
 
+let parse_col_choice tk : col_choice =
+  let codec = z_of_int (tint tk) in
+  let np = tint tk in let sizes = List.init np (fun _ -> nat_of_int (tint tk)) in
+  let nr = tint tk in let reps = List.init nr (fun _ -> tn tk) in
+  let nd = tint tk in let defs = List.init nd (fun _ -> tn tk) in
+  let pad = tn tk in let stats = tn tk in let crc = tint tk <> 0 in let fok = tn tk in let es = tint tk <> 0 in
+  { cc_codec = codec; cc_page_sizes = sizes; cc_rep_choices = reps; cc_def_choices = defs; cc_pad = pad; cc_stats = stats;
+    cc_crc = crc; cc_file_offset_kind = fok; cc_encoding_stats = es }
+
+let parse_file_choice tk : file_choice =
+  if next tk <> "fc" then failwith "expected fc";
+  let n = tint tk in
+  let cols = List.init n (fun _ -> parse_col_choice tk) in
+  let cb = (let t = next tk in if t = "NONE" then None else Some (bytes_of_hex t)) in
+  let kv = tint tk <> 0 in let bsu = tint tk <> 0 in
+  let inj = (match next tk with
+      | "none" -> None
+      | "inj" -> let g = tint tk in let j = tint tk in let p = tint tk in
+        let k = (match next tk with
+            | "dict" -> IDictPage | "index" -> IIndexPage | "v2" -> IDataPageV2
+            | "enc" -> IEncoding (z_of_int (tint tk)) | "defbp" -> IDefBitPacked | "repbp" -> IRepBitPacked
+            | "codec" -> ICodec (z_of_int (tint tk)) | s -> failwith ("bad injection " ^ s)) in
+        Some (((nat_of_int g, nat_of_int j), nat_of_int p), k)
+      | s -> failwith ("bad inject token " ^ s)) in
+  { fc_cols = cols; fc_created_by = cb; fc_key_value = kv; fc_byte_size_uncompressed = bsu; fc_inject = inj }
+
+let rec parse_gotype tk : gotype =
+  match next tk with
+  | "b" -> GBase (tbytes tk)
+  | "p" -> GPtr (parse_gotype tk)
+  | "s" -> GSlice (parse_gotype tk)
+  | "m" -> let k = parse_gotype tk in let v = parse_gotype tk in GMap (k, v)
+  | "c" -> GChan (parse_gotype tk)
+  | "i" -> GIface
+  | "f" -> let n = tint tk in GFunc (List.init n (fun _ -> parse_fdecl tk))
+  | "t" -> let n = tint tk in GStruct (List.init n (fun _ -> parse_fdecl tk))
+  | s -> failwith ("bad gotype " ^ s)
+and parse_fdecl tk : fdecl =
+  let nn = tint tk in
+  let names = List.init nn (fun _ -> tbytes tk) in
+  let ty = parse_gotype tk in
+  let tag = (let t = next tk in if t = "NOTAG" then None else Some (bytes_of_hex t)) in
+  FD (names, ty, tag)
+
+let parse_decls tk =
+  if next tk <> "d" then failwith "expected d";
+  let n = tint tk in
+  List.init n (fun _ -> let name = tbytes tk in let nf = tint tk in (name, List.init nf (fun _ -> parse_fdecl tk)))
+
+let rept_code r = match r with Req -> 0 | Opt -> 1 | Rep -> 2
+let prim_name p = match p with
+  | PInt32 -> "int32" | PInt64 -> "int64" | PUint32 -> "uint32" | PUint64 -> "uint64"
+  | PFloat32 -> "float32" | PFloat64 -> "float64" | PBool -> "bool" | PString -> "string"
+let hex_of_string s = hex_of_bytes (List.init (String.length s) (fun i -> n_of_int (Char.code s.[i])))
+let rec dump_pfield b (f : pfield) =
+  match f with
+  | PLeaf (name, col, rp, p) ->
+    Buffer.add_string b (" ( " ^ hex_of_bytes name ^ " " ^ hex_of_bytes col ^ " " ^ string_of_int (rept_code rp) ^ " " ^ hex_of_string (prim_name p) ^ " 0 )")
+  | PGroup (name, col, rp, typ, kids) ->
+    Buffer.add_string b (" ( " ^ hex_of_bytes name ^ " " ^ hex_of_bytes col ^ " " ^ string_of_int (rept_code rp) ^ " " ^ hex_of_bytes typ ^ " " ^ string_of_int (List.length kids));
+    List.iter (dump_pfield b) kids;
+    Buffer.add_string b " )"
+
 let dispatch kind (tk : toks) : string =
   match kind with
+  | "parsefields" ->
+    (* parsefields-model: <decls> : the column tree of type Root *)
+    let ds = parse_decls tk in
+    (match parse_root ds (bytes_of_hex "526f6f74") with
+     | Some kids -> let b = Buffer.create 512 in
+       Buffer.add_string b ("TREE errs=0 " ^ string_of_int (List.length kids)); List.iter (dump_pfield b) kids; Buffer.contents b
+     | None -> "NONE")
+  | "foreign" ->
+    (* foreign <shape> <file choice> <nbatches> (<n> records...)... : the file, hex *)
+    let fs = shape (next tk) in
+    let fc = parse_file_choice tk in
+    let nb = tint tk in
+    let batches = List.init nb (fun _ -> let n = tint tk in List.init n (fun _ -> parse_value tk)) in
+    hex_of_bytes (foreign_file compress fs fc batches)
   | "introspect" ->
     (* the model of ReadMetaData / PageHeaders / PageHeadersAtOffset *)
     let file = tbytes tk in
